@@ -1377,6 +1377,10 @@ def derived_ord(q, adt_short):
     return None
 
 
+INJECTIVE_KEY_CALLS = ("rev", "ok", "as_ref", "as_deref", "as_inner", "as_str", "as_slice", "as_bytes", "as_java_str", "borrow", "deref", "clone",
+                       "cloned", "copied", "to_owned", "to_string", "into", "unwrap", "expect", "as_mut", "Reverse", "into_inner", "names")
+
+
 def sort_key_total(q, R, rid, cx, fn, o, key):
     node = o["sorted"]
     keys, problems = sort_key_fields(fn, node)
@@ -1401,8 +1405,12 @@ def sort_key_total(q, R, rid, cx, fn, o, key):
             notes.append("key %s is not a model place" % ch.show())
             continue
         (a, f, sub), rest = r
-        if rest and any(h[0] != "call" or h[1] not in ("rev",) for h in rest):
+        lossy = [h for h in rest if not (h[0] in ("some", "elem") or (h[0] == "call" and h[1] in INJECTIVE_KEY_CALLS))]
+        if lossy:
+            # the compared value is a function of the model place; unless that function is injective (a selection / ownership / view
+            # conversion) two distinct keys may compare equal and keep their insertion order (seed C03-6: to_lowercase)
             notes.append("key goes through %s" % Chain(("x",), rest).show())
+            problems = problems + ["sort key is not an injective view of the model place: %s" % Chain(("x",), lossy).show()]
         if a in MODEL_NODE and f == "info":
             # the whole info struct: all its fields, if its Ord is the derived lexicographic one
             d = derived_ord(q, cx.info_of.get(a))
